@@ -216,6 +216,14 @@ DevPositronBremSlow(r) ==
   /\ r.model \in {"SeltzerBerger", "CombinedBrem"} /\ r.inc.pt = "positron"
   /\ r.rk.cutGhi3 >= 0 /\ r.inc.rE <= r.rk.cutGhi3
 
+\* corecel rotate(dir, rot): for 0 < sin(theta_rot) < 0.005 (double) the azimuth of rot is
+\* rebuilt as sinphi = sqrt(1 - cosphi^2) >= 0, which drops the sign of rot[Y]; for an
+\* incident direction that close to the z axis with a negative y component every sampled
+\* exiting direction (ExitingDirectionSampler) is rotated about the mirrored axis, so the
+\* scattering angle is off by up to 2 sin(theta_rot) and momentum is not conserved.
+DevRotateNearPole(r) ==
+  r.rk.sinth > r.rk.zero /\ r.rk.sinth < r.rk.sinthmin /\ ~r.ypos
+
 Deviations(r) ==
   (IF ~r.aborted /\ DevEPlusGG(r)
       THEN {[name |-> "EPlusGGInFlightSecondPhotonDirection", covers |-> {"C04.Momentum"}]} ELSE {})
@@ -223,6 +231,8 @@ Deviations(r) ==
       THEN {[name |-> "BhabhaNearCutNaNDirection", covers |-> {"C04.UnitDirections", "C04.Momentum"}]} ELSE {})
   \cup (IF ~r.aborted /\ DevBremNearCutNegative(r)
       THEN {[name |-> "BremNearCutNegativeEnergy", covers |-> {"C04.EnergiesFiniteNonNegative"}]} ELSE {})
+  \cup (IF ~r.aborted /\ DevRotateNearPole(r)
+      THEN {[name |-> "RotateNearPoleNegativeY", covers |-> {"C04.Momentum"}]} ELSE {})
   \cup (IF DevPositronBremSlow(r)
       THEN {[name |-> "PositronBremNearCutSlowRejection", covers |-> {"C04.DrawBound"}]} ELSE {})
 
